@@ -47,6 +47,10 @@ func (p *PackageInfo) GetAllReferencedPackages() []*PackageInfo {
 	var recurse func(*PackageInfo)
 	recurse = func(pInfo *PackageInfo) {
 		for _, imp := range pInfo.Imports {
+			if imp.Package == nil {
+				// the import could not be loaded
+				continue
+			}
 			if !checked[imp.Package.FilePath] {
 				recurse(imp.Package)
 				checked[imp.Package.FilePath] = true
@@ -60,6 +64,9 @@ func (p *PackageInfo) GetAllReferencedPackages() []*PackageInfo {
 
 	// Get all other versions, and their respective imported packages
 	for _, ver := range p.Versions {
+		if ver.Package == nil {
+			continue
+		}
 		if !checked[ver.Package.FilePath] {
 			recurse(ver.Package)
 			checked[ver.Package.FilePath] = true
